@@ -8,13 +8,6 @@ namespace Juno.C01
 namespace State
 open Trie2
 
-/-- The contract-trie leaf the Starknet OS assigns to a contract state
-(`get_contract_state_hash`): zero for the entirely empty state, else
-`H(H(H(class_hash, storage_root), nonce), 0)`. -/
-def protocolLeaf (cls storageRoot nonce : HTerm) : HTerm :=
-  if cls = .felt 0 ∧ storageRoot = .felt 0 ∧ nonce = .felt 0 then .felt 0
-  else contractLeaf cls storageRoot nonce
-
 /-- The leaf map of a set of contract records as juno computes it. -/
 def leafOfRecs (recs : AList Rec) (addr : Path) : HTerm :=
   match alookup recs addr with
@@ -29,14 +22,19 @@ def protocolLeafOfRecs (recs : AList Rec) (addr : Path) : HTerm :=
 
 def GoodTrie (k : HashKind) (t : Node) : Prop := WFRoot t 251 ∧ CacheOK k t
 
-/-- All keys are 251-bit paths; class hashes of deployed / replaced contracts are non-zero and
-system contracts (0x1, 0x2) only receive storage writes (what the sequencer can produce). -/
+/-- The input space: all keys are 251-bit paths; class hashes of deployed / replaced contracts are
+non-zero; system contracts (0x1, 0x2) only receive storage writes — never a class or a nonce (they have no
+Cairo class; no deployment can produce their address); the components of a diff are Go maps, so the
+addresses of `deployed` and of `storage` are pairwise distinct (for the other components last-write-wins
+makes duplicates harmless). -/
 structure ValidDiff (d : Diff) : Prop where
   declared : ∀ e ∈ d.declared ++ d.migrated, e.1.length = 251
-  deployed : ∀ e ∈ d.deployed, e.1.length = 251 ∧ e.2 ≠ .felt 0
-  replaced : ∀ e ∈ d.replaced, e.1.length = 251 ∧ e.2 ≠ .felt 0
-  nonces : ∀ e ∈ d.nonces, e.1.length = 251
+  deployed : ∀ e ∈ d.deployed, e.1.length = 251 ∧ e.2 ≠ .felt 0 ∧ isSystem e.1 = false
+  replaced : ∀ e ∈ d.replaced, e.1.length = 251 ∧ e.2 ≠ .felt 0 ∧ isSystem e.1 = false
+  nonces : ∀ e ∈ d.nonces, e.1.length = 251 ∧ isSystem e.1 = false
   storage : ∀ e ∈ d.storage, e.1.length = 251 ∧ ∀ kv ∈ e.2, kv.1.length = 251
+  deployedNodup : (d.deployed.map (·.1)).Nodup
+  storageNodup : (d.storage.map (·.1)).Nodup
 
 /-- A record is never the protocol's "empty contract state". -/
 def NonEmptyRec (r : Rec) : Prop :=
@@ -329,7 +327,7 @@ theorem update_swf {purge : Bool} {s s' : St} {d : Diff} (hs : SWF s) (hd : Vali
           have g1 := deployAll_good (s := s) d.deployed (fun e he => (hd.deployed e he).1) [] o1
             (by intro e he; simp at he) h1
           have g2 := replaceAll_good hs d.replaced (fun e he => (hd.replaced e he).1) o1 o2 g1 h2
-          have g3 := nonceAll_good hs d.nonces hd.nonces o2 o3 g2 h3
+          have g3 := nonceAll_good hs d.nonces (fun e he => (hd.nonces e he).1) o2 o3 g2 h3
           have g4 := storageAll_good hs d.storage hd.storage o3 o4 g3 h4
           have hvalid : ValidOps 251 (classOpsOf d) := by
             intro op hop
@@ -569,11 +567,11 @@ theorem update_recsOK {s s' : St} {d : Diff} (hs : SWF s) (hr : RecsOK s.recs) (
           have g1 := deployAll_good (s := s) d.deployed (fun e he => (hd.deployed e he).1) [] o1
             (by intro e he; simp at he) h1
           have g2 := replaceAll_good hs d.replaced (fun e he => (hd.replaced e he).1) o1 o2 g1 h2
-          have g3 := nonceAll_good hs d.nonces hd.nonces o2 o3 g2 h3
+          have g3 := nonceAll_good hs d.nonces (fun e he => (hd.nonces e he).1) o2 o3 g2 h3
           have g4 := storageAll_good hs d.storage hd.storage o3 o4 g3 h4
-          have k1 := deployAll_ok (s := s) d.deployed (fun e he => (hd.deployed e he).2) [] o1
+          have k1 := deployAll_ok (s := s) d.deployed (fun e he => (hd.deployed e he).2.1) [] o1
             (by intro e he; simp at he) h1
-          have k2 := replaceAll_ok (s := s) d.replaced (fun e he => (hd.replaced e he).2) o1 o2 k1 h2
+          have k2 := replaceAll_ok (s := s) d.replaced (fun e he => (hd.replaced e he).2.1) o1 o2 k1 h2
           have k3 := nonceAll_ok hr d.nonces o2 o3 k2 h3
           have k4 := storageAll_ok hr d.storage o3 o4 k3 h4
           subst h
